@@ -10,7 +10,7 @@ branches as the run, and yields the expected quantum-operation sequence (with ha
 Statements (JSON-able lists):
   ["qdecl", name, tracked]            ["rdecl", name, n, tracked]          ["odecl", name]   (Holder object: q + r[2])
   ["gate", g, path, [handles], angle] path in direct|fn|nested|static|self
-  ["mstmt", handle]   ["mexpr", handle, bitvar, path]   ["marr", reg-handle]   ["reset", handle]
+  ["mstmt", handle]   ["mexpr", handle, bitvar, path]   ["mecho", handle, path]   ["marr", reg-handle]   ["reset", handle]
   ["ifbit", bitvar, then, else]       ["loop", regname, n, g, path, angle]   ["destroy", objname]   ["block", stmts]
 Handles: ["var", q] | ["elem", r, i] | ["field", o, "q"] | ["felem", o, "r", i]
 """
@@ -157,6 +157,11 @@ def render_stmt(s, ind, out):
                "static": f"QU.ap_m({hname(h)})", "self": f"{h[1]}.self_m()"}[path]
         out.append(f"{pad}bit {b} = {rhs};")
         out.append(f"{pad}echo({b});")
+    elif k == "mecho":
+        h, path = s[1], s[2]
+        rhs = {"direct": f"measure {hname(h)}", "fn": f"g_m({hname(h)})", "nested": f"n_m({hname(h)})",
+               "static": f"QU.ap_m({hname(h)})", "self": f"{h[1]}.self_m()"}[path]
+        out.append(f"{pad}echo({rhs});")
     elif k == "marr":
         out.append(f"{pad}measure {s[1][1] if s[1][0] == 'var' else s[1][1] + '.r'};")
     elif k == "reset":
@@ -330,8 +335,12 @@ def gen_stmts(draw, gs, n, depth, max_q, feats):
             if h[0] == "field" and draw(st.booleans()):
                 path = "self"
             gs.qubits[hkey(h)] = "measured"
-            gs.bits.append(b)
-            out.append(["mexpr", h, b, path])
+            if draw(st.integers(0, 3)) == 0:
+                # the measurement sits directly in the echo argument: it must happen whether or not echo output is shown
+                out.append(["mecho", h, path])
+            else:
+                gs.bits.append(b)
+                out.append(["mexpr", h, b, path])
         elif c == "marr":
             r = draw(st.sampled_from(regs_all_active))
             for i in range(gs.regs[r]):
@@ -399,7 +408,7 @@ def qprogram(draw, max_q=6, nstmts=14, measure=True, objects=True, tracked=True,
 def _no_measure(stmts):
     out = []
     for s in stmts:
-        if s[0] in ("mstmt", "mexpr", "marr", "ifbit", "reset", "destroy"):
+        if s[0] in ("mstmt", "mexpr", "mecho", "marr", "ifbit", "reset", "destroy"):
             continue
         if s[0] == "gate" and s[2] == "self":
             pass
@@ -551,6 +560,8 @@ class Interp:
             v = self.measure(s[1])
             self.bits[s[2]] = v
             self.echo.append(str(v))
+        elif k == "mecho":
+            self.echo.append(str(self.measure(s[1])))
         elif k == "marr":
             reg = s[1][1]
             n = self.regs[reg]
